@@ -272,12 +272,71 @@ pub fn drvv(f: &[&str]) -> String {
     format!("{} | {}", outcome, if received.is_empty() { "-".to_owned() } else { hex(&received) })
 }
 
+/// child mode `hcore --c08-lock <mode> <out|err> <hex1> <hex2>`: write hex1 through an anstream
+/// stream over the REAL stdout / stderr, call `.lock()`, write hex2 through the locked stream
+pub fn lock_child(args: &[String]) -> i32 {
+    let (mode, which, h1, h2) = (&args[0], &args[1], unhex(&args[2]), unhex(&args[3]));
+    let choice = match mode.as_str() {
+        "never" => anstream::ColorChoice::Never,
+        "ansi" => anstream::ColorChoice::AlwaysAnsi,
+        "always" => anstream::ColorChoice::Always,
+        _ => anstream::ColorChoice::Never,
+    };
+    let r: std::io::Result<()> = (|| {
+        if mode == "strip" {
+            if which == "out" {
+                let mut s = anstream::StripStream::new(std::io::stdout());
+                s.write_all(&h1)?;
+                let mut l = s.lock();
+                l.write_all(&h2)?;
+                l.flush()
+            } else {
+                let mut s = anstream::StripStream::new(std::io::stderr());
+                s.write_all(&h1)?;
+                let mut l = s.lock();
+                l.write_all(&h2)?;
+                l.flush()
+            }
+        } else if which == "out" {
+            let mut s = anstream::AutoStream::new(std::io::stdout(), choice);
+            s.write_all(&h1)?;
+            let mut l = s.lock();
+            l.write_all(&h2)?;
+            l.flush()
+        } else {
+            let mut s = anstream::AutoStream::new(std::io::stderr(), choice);
+            s.write_all(&h1)?;
+            let mut l = s.lock();
+            l.write_all(&h2)?;
+            l.flush()
+        }
+    })();
+    if r.is_ok() { 0 } else { 3 }
+}
+
+/// `lk8 <mode> <out|err> <hex1> <hex2>`: run the child above, capture what arrives on the pipe
+pub fn lk8(f: &[&str]) -> String {
+    let exe = std::env::current_exe().expect("current_exe");
+    let out = std::process::Command::new(exe)
+        .arg("--c08-lock")
+        .args(f)
+        .stdin(std::process::Stdio::null())
+        .output()
+        .expect("spawn child");
+    if !out.status.success() {
+        return format!("CHILD-FAILED {:?}", out.status.code());
+    }
+    let got = if f[1] == "out" { out.stdout } else { out.stderr };
+    if got.is_empty() { "-".to_owned() } else { hex(&got) }
+}
+
 pub fn dispatch(kind: &str, f: &[&str]) -> Option<String> {
     Some(match kind {
         "strm" => strm(f),
         "drv" => drv(f, false),
         "drvn" => drv(f, true),
         "drvv" => drvv(f),
+        "lk8" => lk8(f),
         _ => return None,
     })
 }
